@@ -1,7 +1,8 @@
 (* Delayed.v -- model of delayed task creation (create_after):
      doit/task.py     DelayedLoader (27-48), Task.__init__ 225-228 (loader.task_dep becomes a task_dep)
      doit/loader.py   load_tasks/_add_delayed 174-229 (one COPY of the DelayedLoader per placeholder task)
-     doit/control.py  (line numbers of HEAD 0acbaec) TaskControl._filter_tasks 190-250 (placeholders for `basename:sub`, `_regex_target_<t>:<task>`
+     doit/control.py  (line numbers of 0acbaec; the repair 01f48fb adds 6 lines inside _filter_tasks, so everything below
+                      it is 6 lines further down in HEAD) TaskControl._filter_tasks 190-250 (placeholders for `basename:sub`, `_regex_target_<t>:<task>`
                       tasks and RegexGroup), TaskControl.set_implicit_deps / add_implicit_task_dep 98-133,
                       ExecNode.reset_task 322-327, TaskDispatcher._add_task 435-547 with the loader branch
                       450-455 and 482-524, _dispatcher_generator 632-678 ("reset generator")
@@ -641,7 +642,15 @@ Definition run_script (fuel : nat) (ops : list sop) (d : dst) : list dev * N :=
 End Model.
 
 (* ---------------- TaskControl._filter_tasks (190-250) on a loaded table ---------------- *)
-Record sstate := { ss_d : dst; ss_order : list name; ss_gnext : N }.   (* ss_order: key order of the tasks dict *)
+(* ss_order: key order of the tasks dict; ss_sub: `subtask_placeholders` (196-199 as of 01f48fb): the placeholders made for
+   `basename:sub` words, which share the loader OBJECT of the task called basename *)
+Record sstate := { ss_d : dst; ss_order : list name; ss_gnext : N; ss_sub : list name }.
+
+(* which _filter_tasks: HEAD (repair 01f48fb: the target_regex / --auto-delayed-regex loop skips the by-name sub-task
+   placeholders, 232-233), or the code before it (a placeholder `c:1` was taken for a task-creator: it became a member of
+   the RegexGroup, got its own `_regex_target_<w>:c:1` task and overwrote loader.basename of the loader it shares with c).
+   The legacy variant is kept so that the defect stays stated (Properties/C15.v, *_legacy_refuted) *)
+Inductive selver := SelHead | SelLegacy.
 
 (* Task(name, None, loader=loader [, file_dep=[target]]) : task.py 225-228 *)
 Definition placeholder (L : loader) (T : name) (fdep : list name) : dtask :=
@@ -649,6 +658,7 @@ Definition placeholder (L : loader) (T : name) (fdep : list name) : dtask :=
      dt_file_dep := fdep; dt_targets := []; dt_loader := Some T |}.
 
 Section Select.
+Variable sv : selver.
 Variable base_of : name -> name.            (* word.split(':', 1)[0] *)
 Variable is_rx : name -> bool.              (* name.startswith('_regex_target') *)
 Variable rmatch : name -> name -> bool.     (* re.match(loader.target_regex, word), by loader *)
@@ -657,11 +667,13 @@ Variable auto : bool.                       (* --auto-delayed-regex *)
 
 Definition add_order (o : list name) (k : name) : list name := if mem k o then o else o ++ [k].
 
-(* 222-232 *)
-Definition matched (d : dst) (order : list name) (f : name) : list name :=
+(* 225-238 (01f48fb) *)
+Definition skip_sub (sub : list name) (k : name) : bool := match sv with SelHead => mem k sub | SelLegacy => false end.
+Definition matched (d : dst) (order sub : list name) (f : name) : list name :=
   filter (fun k => match dt_loader (tab_get d k) with
                    | None => false
                    | Some T => if is_rx k then false
+                               else if skip_sub sub k then false
                                else if l_has_regex (q_ld d T) then rmatch T f else auto
                    end) order.
 
@@ -675,17 +687,17 @@ Definition add_rx (g : N) (f : name) (s : sstate) (k : name) : sstate :=
     let nm := rx_name f k in
     let d2 := set_rxg d1 nm g in
     let d3 := set_tab d2 nm (placeholder (q_ld d2 T) T [f]) in
-    {| ss_d := set_torun d3 (q_torun d3 ++ [nm]); ss_order := add_order (ss_order s) nm; ss_gnext := ss_gnext s |}
+    {| ss_d := set_torun d3 (q_torun d3 ++ [nm]); ss_order := add_order (ss_order s) nm; ss_gnext := ss_gnext s; ss_sub := ss_sub s |}
   end.
 
 (* one word of the selection; None = InvalidCommand(not_found) *)
 Definition filter_one (s : sstate) (f : name) : option sstate :=
   let d := ss_d s in
   match q_tab d f with
-  | Some _ => Some {| ss_d := set_torun d (q_torun d ++ [f]); ss_order := ss_order s; ss_gnext := ss_gnext s |}
+  | Some _ => Some {| ss_d := set_torun d (q_torun d ++ [f]); ss_order := ss_order s; ss_gnext := ss_gnext s; ss_sub := ss_sub s |}
   | None =>
     match q_tg d f with
-    | Some t => Some {| ss_d := set_torun d (q_torun d ++ [t]); ss_order := ss_order s; ss_gnext := ss_gnext s |}
+    | Some t => Some {| ss_d := set_torun d (q_torun d ++ [t]); ss_order := ss_order s; ss_gnext := ss_gnext s; ss_sub := ss_sub s |}
     | None =>
       let b := base_of f in
       match q_tab d b with
@@ -695,15 +707,16 @@ Definition filter_one (s : sstate) (f : name) : option sstate :=
         | Some T =>
           let d1 := set_ld d T (ld_basename (q_ld d T) (Some b)) in
           let d2 := set_tab d1 f (placeholder (q_ld d1 T) T []) in
-          Some {| ss_d := set_torun d2 (q_torun d2 ++ [f]); ss_order := add_order (ss_order s) f; ss_gnext := ss_gnext s |}
+          Some {| ss_d := set_torun d2 (q_torun d2 ++ [f]); ss_order := add_order (ss_order s) f; ss_gnext := ss_gnext s;
+                  ss_sub := f :: ss_sub s |}
         end
       | None =>
-        let ms := matched d (ss_order s) f in
+        let ms := matched d (ss_order s) (ss_sub s) f in
         if is_nil ms then None
         else
           let g := ss_gnext s in
           let d1 := set_grp d g (Build_rgroup f ms false) in
-          Some (fold_left (add_rx g f) ms {| ss_d := d1; ss_order := ss_order s; ss_gnext := g + 1 |})
+          Some (fold_left (add_rx g f) ms {| ss_d := d1; ss_order := ss_order s; ss_gnext := g + 1; ss_sub := ss_sub s |})
       end
     end
   end.
@@ -721,10 +734,10 @@ Definition loaded (tab : name -> option dtask) (ld : name -> loader) (tg : name 
      q_tab := tab; q_ld := ld; q_tg := tg; q_rxg := fun _ => None; q_grp := fun _ => empty_group; q_tr := [] |}.
 
 (* TaskControl.process (253-264): None = run everything in definition order *)
-Definition process_sel base_of is_rx rmatch rx_name auto (d : dst) (order : list name) (sel : option (list name)) : option dst :=
+Definition process_sel sv base_of is_rx rmatch rx_name auto (d : dst) (order : list name) (sel : option (list name)) : option dst :=
   match sel with
   | None => Some (set_torun d order)
-  | Some fs => match filter_tasks base_of is_rx rmatch rx_name auto {| ss_d := d; ss_order := order; ss_gnext := 0 |} fs with
+  | Some fs => match filter_tasks sv base_of is_rx rmatch rx_name auto {| ss_d := d; ss_order := order; ss_gnext := 0; ss_sub := [] |} fs with
                | Some s => Some (ss_d s) | None => None end
   end.
 
@@ -758,19 +771,19 @@ Definition init_okb (names : list name) (d : dst) : bool :=
 (* whole command: selection then serial run; selection error = [40], exit 3;
    the last two numbers: -2, init_okb of the selected state over the names 0..nmax;
    the key list given to the model (mark_creator) is the same list of all names *)
-Definition run_cmd v creators wake_rank calc_rank cont always base_of is_rx rmatch rx_name auto
+Definition run_cmd v sv creators wake_rank calc_rank cont always base_of is_rx rmatch rx_name auto
                    (fuel : nat) (d : dst) (order : list name) (sel : option (list name)) (nmax : nat) : list Z :=
   let names := map N.of_nat (seq 0 (S nmax)) in
-  match process_sel base_of is_rx rmatch rx_name auto d order sel with
+  match process_sel sv base_of is_rx rmatch rx_name auto d order sel with
   | None => [40; -1; 3]%Z
   | Some d0 => let r := run_serial v names creators wake_rank calc_rank cont always fuel d0 in
                (enc_dtrace (fst r) ++ [-1; zN (snd r); -2; zb (init_okb names d0)])%Z
   end.
 (* the same with a parallel runner: selection, then the recorded script of the runner's calls *)
-Definition run_script_cmd v creators wake_rank calc_rank cont always base_of is_rx rmatch rx_name auto
+Definition run_script_cmd v sv creators wake_rank calc_rank cont always base_of is_rx rmatch rx_name auto
                    (fuel : nat) (d : dst) (order : list name) (sel : option (list name)) (ops : list sop) (nmax : nat) : list Z :=
   let names := map N.of_nat (seq 0 (S nmax)) in
-  match process_sel base_of is_rx rmatch rx_name auto d order sel with
+  match process_sel sv base_of is_rx rmatch rx_name auto d order sel with
   | None => [40; -1; 3]%Z
   | Some d0 => let r := run_script v names creators wake_rank calc_rank cont always fuel ops d0 in
                (enc_dtrace (fst r) ++ [-1; zN (snd r); -2; zb (init_okb names d0)])%Z
